@@ -72,9 +72,13 @@ func c16R1(c *Ctx, id string) {
 							detail = "the failing function's error is not what the closure returns (Update would commit)"
 						}
 					case *ssa.Store:
-						if fv, isFV := x.Addr.(*ssa.FreeVar); isFV && strings.Contains(fv.Name(), "failIdx") {
-							// the loop index
-							sawIdx = true
+						// the captured int variable that records the failing position (identified by role, not by name)
+						if fv, isFV := x.Addr.(*ssa.FreeVar); isFV {
+							if pt, isP := fv.Type().Underlying().(*types.Pointer); isP {
+								if b, isB := pt.Elem().Underlying().(*types.Basic); isB && b.Info()&types.IsInteger != 0 {
+									sawIdx = true
+								}
+							}
 						}
 					}
 				}
